@@ -163,3 +163,82 @@ func (o *Once) Do(f func()) {
 		f()
 	}
 }
+
+// Cond replaces sync.Cond: Wait parks in the scheduler until Signal / Broadcast.
+type Cond struct {
+	L       sync.Locker
+	real    *sync.Cond
+	waiters []*Task
+	tickets map[*Task]bool
+}
+
+// NewCond replaces sync.NewCond.
+//
+//go:norace
+func NewCond(l sync.Locker) *Cond { return &Cond{L: l, real: sync.NewCond(l)} }
+
+//go:norace
+func (c *Cond) Wait() {
+	s := Current()
+	if s == nil {
+		c.passthrough().Wait()
+		return
+	}
+	t := s.self()
+	s.lock()
+	c.waiters = append(c.waiters, t)
+	s.unlock()
+	c.L.Unlock()
+	t.waitF = func() bool { return c.tickets[t] }
+	s.park(t, "Cond.Wait")
+	t.waitF = nil
+	s.lock()
+	delete(c.tickets, t)
+	s.unlock()
+	c.L.Lock()
+}
+
+//go:norace
+func (c *Cond) wake(n int) {
+	s := Current()
+	if s == nil {
+		if n == 1 {
+			c.passthrough().Signal()
+		} else {
+			c.passthrough().Broadcast()
+		}
+		return
+	}
+	Yield("Cond.Signal")
+	s.lock()
+	if c.tickets == nil {
+		c.tickets = map[*Task]bool{}
+	}
+	for n != 0 && len(c.waiters) > 0 {
+		c.tickets[c.waiters[0]] = true
+		c.waiters = c.waiters[1:]
+		n--
+	}
+	s.unlock()
+}
+
+//go:norace
+func (c *Cond) Signal() { c.wake(1) }
+
+//go:norace
+func (c *Cond) Broadcast() { c.wake(-1) }
+
+var condInit sync.Mutex
+
+// passthrough returns the real condition variable used when no scheduler is installed
+// (a Cond built as a composite literal has none yet).
+//
+//go:norace
+func (c *Cond) passthrough() *sync.Cond {
+	condInit.Lock()
+	defer condInit.Unlock()
+	if c.real == nil {
+		c.real = sync.NewCond(c.L)
+	}
+	return c.real
+}
